@@ -319,6 +319,35 @@ def run(tier, seed):
         elif sig in seen and repr(V.canon_doc(list(seen[sig]))) != repr(V.canon_doc(list(st))):
             rep.violate("variable states %r and %r share signature %s" % (seen[sig], st, sig and sig[:10]), {"kind": "vars", "state": repr(st)}, mechanism="variables-state-collision")
         seen.setdefault(sig, st)
+    # ... under every setting of the options that switch tracking per type (accept_list: lists and tuples, accept_dict:
+    # dicts), the values of the types that are still tracked keep their own signatures and results
+    from collections import OrderedDict as _OD
+
+    for al in (True, False):
+        for ad in (True, False):
+            dds.set_option("accept_list", al)
+            dds.set_option("accept_dict", ad)
+            cs = CapturingStore(MemoryStore())
+            dds.set_store(cs)
+            tracked = [(1, 2, 0), (2, 1, 0), ("x", 0, 0)]
+            if al:
+                tracked += [([1], 0, 0), ([2], 0, 0), ((1, 2), 0, 0), ((1, 3), 0, 0)]
+            if ad:
+                tracked += [({"k": 1}, 0, 0), ({"k": 2}, 0, 0), (0, {"k": 1}, 0), (_OD([("k", 3)]), 0, 0), (_OD([("k", 4)]), 0, 0), ({"k": {"n": 1}}, 0, 0), ({"k": {"n": 2}}, 0, 0)]
+            try:
+                for st in tracked + tracked[:2]:
+                    c05vars_a.BATCH, c05vars_b.BATCH, c05vars_a.OTHER = st
+                    r = dds.keep("/pvo", combined_vars)
+                    rep.count("variable_states_under_options")
+                    if r != ("combined",) + tuple(st):
+                        rep.violate("with accept_list=%s accept_dict=%s a function reading variables returned %r for the state %r (a result computed for another state was served)" % (al, ad, r, st),
+                                    {"kind": "vars", "state": repr(st), "accept_list": al, "accept_dict": ad}, mechanism="variables-state-collision-under-options")
+            except BaseException as e:
+                rep.violate("with accept_list=%s accept_dict=%s keep of a function reading variables raised %s: %s" % (al, ad, type(e).__name__, str(e)[:150]), {"kind": "vars"}, mechanism="api-keep-raised")
+    dds.set_option("accept_list", True)
+    dds.set_option("accept_dict", True)
+    cs = CapturingStore(MemoryStore())
+    dds.set_store(cs)
     # ... and a variable whose value cannot be hashed ends in the coded error, whichever way the function spells the read
     from dds.structures import DDSException
 
